@@ -211,6 +211,9 @@ def main(argv=None):
                         f"{rr.get('detail', '')[:500]}")
                     continue
                 key = rr["key"]
+                if str(key).startswith("HARNESS-UNCAUGHT:"):
+                    harness_errors.append(f"the harness itself raised on witness {path}: {key}: {rr.get('detail', '')[-400:]}")
+                    continue
                 if key in known_keys:
                     if key not in reported_keys:
                         known_lines.append(f"KNOWN-FINDING: property={pid} {known_keys[key]['what']} [key={key}]")
